@@ -2,7 +2,8 @@
   Umbrella of property C09: the mesh-level theorems (Props/C09.lean), the WKT parser theorems (Props/C09wkt.lean)
   the join_two_vertices theorems (Props/C09join.lean)
   and the theorems on generate_mesh without merging (Props/C11mesh.lean, shared with C11)
-  and on the merge loop over pairwise vertex-disjoint pairs (Props/C11merge.lean, shared with C11).
+  and on the merge loop over pairwise vertex-disjoint pairs (Props/C11merge.lean, shared with C11)
+  and on the skeleton clean-up (Props/C15cleanup.lean, shared with C15).
   lean/props.json names this module for C09, so that `./check C09` builds and audits both.
 -/
 import ForsysModel.Props.C09
@@ -10,3 +11,4 @@ import ForsysModel.Props.C09wkt
 import ForsysModel.Props.C09join
 import ForsysModel.Props.C11mesh
 import ForsysModel.Props.C11merge
+import ForsysModel.Props.C15cleanup
